@@ -293,7 +293,7 @@ def rule_r2(prog, res) -> None:
         raise AnalysisError("C08.R2: no catalog writer with an overwrite option found")
     # catalog data files: a patch writer never reuses an existing patch directory
     for pc in prog.classes:
-        init = pc.methods.get("__init__")
+        init = _method(prog, pc, "__init__")  # private helpers of the class (e.g. an extracted directory check) expanded in place
         if init is None:
             continue
         cfg, effs = _fs_nodes(prog, init, deep=True)
